@@ -36,7 +36,8 @@ FindingTrees == {[parent |-> <<0, 1, 2, 3, 0>>, txs |-> <<<<1>>, <<2>>, <<>>, <<
 
 (* thorough tier: hand-picked larger shapes (the full set of 5-block trees is ~10^8 transitions) *)
 ThoroughShapes == {<<0, 1, 2, 3, 0>>, <<0, 1, 2, 1, 4>>, <<0, 0, 1, 2, 3>>, <<0, 1, 1, 2, 3>>, <<0, 1, 2, 2, 2>>,
-                   <<0, 1, 2, 3, 1, 5>>, <<0, 1, 2, 0, 4, 5>>}
+                   <<0, 1, 2, 3, 1, 5>>, <<0, 1, 2, 0, 4, 5>>, <<0, 1, 2, 3, 2, 5>>, <<0, 0, 1, 1, 2, 2>>,
+                   <<0, 1, 2, 3, 4, 0>>, <<0, 1, 2, 2, 3, 4>>}
 ThoroughTrees == {[parent |-> p, txs |-> [b \in 1..Len(p) |-> TxOf(p, b)], ntx |-> NTx] : p \in ThoroughShapes}
 
 MCInit == /\ \E t \in Trees, sc \in Schemes : InitWith(t, sc)
